@@ -237,6 +237,32 @@ Definition conn_mode_of (is_tcp any_ready inspector : bool) (first_byte : N) : c
   else if N.eqb first_byte 22 then ModeTLS else ModePlain.
 Definition serves_plain (m : conn_mode) : bool := match m with ModeTLS => false | _ => true end.
 
+(* ---------- the manager of a listener over a history of configurations ----------
+   A listener (one name) is configured again and again (LDS updates): each configuration = (TLS contexts as an opaque
+   token list, inspector).  NewTLSServerContextManager is called for each; the manager IN FORCE is the last one returned.
+   `cached` (Gen/TLSTokens.v tls_manager_cached) = the constructor may return an earlier manager of the same listener
+   when the contexts are unchanged (the code in the tree builds a fresh manager on every call: cached = false). *)
+Definition lcfg := (list nat * bool)%type.           (* contexts, inspector *)
+Definition built (c : lcfg) : lcfg := c.              (* what a manager remembers: the contexts and the inspector flag it was built with *)
+Definition nat_list_eqb (a b : list nat) : bool :=
+  andb (Nat.eqb (List.length a) (List.length b)) (forallb (fun xy => Nat.eqb (fst xy) (snd xy)) (combine a b)).
+Definition next_manager (cached : bool) (cur : option lcfg) (c : lcfg) : lcfg :=
+  match cur with
+  | Some m => if andb cached (nat_list_eqb (fst m) (fst c)) then m else built c
+  | None => built c
+  end.
+Fixpoint manager_after (cached : bool) (cur : option lcfg) (h : list lcfg) : option lcfg :=
+  match h with
+  | [] => cur
+  | c :: h' => manager_after cached (Some (next_manager cached cur c)) h'
+  end.
+(* what a connection meets on the listener after the history h (a context list [] = no ready provider) *)
+Definition mode_after (cached : bool) (h : list lcfg) (first_byte : N) : option conn_mode :=
+  match manager_after cached None h with
+  | Some (ctxs, insp) => Some (conn_mode_of true (negb (match ctxs with [] => true | _ => false end)) insp first_byte)
+  | None => None
+  end.
+
 (* ---------- correspondence cases ---------- *)
 Fixpoint mismatches_from {A} (ok : A -> bool) (i : nat) (l : list A) : list nat :=
   match l with
@@ -298,3 +324,10 @@ Definition insp_case := (bool * bool * N * N)%type.
 Definition insp_case_ok (k : insp_case) : bool :=
   match k with (ar, insp, b, got) => N.eqb (mode_code (conn_mode_of true ar insp b)) got end.
 Definition insp_mismatches (l : list insp_case) : list nat := mismatches_from insp_case_ok 0 l.
+
+(* update history of one listener name, first byte of a client, observed mode (0 raw, 1 tls, 2 plain) *)
+Definition upd_case := (list lcfg * N * N)%type.
+Definition upd_case_ok (cached : bool) (k : upd_case) : bool :=
+  match k with (h, b, got) =>
+    match mode_after cached h b with Some m => N.eqb (mode_code m) got | None => false end end.
+Definition upd_mismatches (cached : bool) (l : list upd_case) : list nat := mismatches_from (upd_case_ok cached) 0 l.
